@@ -912,7 +912,7 @@ def fabric_delivery(script="late-subscriber", kinds=("fifo",)):
 
 
 # ---- an active object subscribes and publishes against the delivery threads and its own thread (C07, C09 under every interleaving) -----
-def ao_pubsub(kind="lifo", pending=1, subscribe_first=True):
+def ao_pubsub(kind="lifo", pending=1, subscribe_first=True, post_after=0):
   """thread 0: the real ActiveObject.subscribe(signal, queue_type=kind) on a started object (run-time path), a fifo post of `pending` events
   by the caller, then the real ActiveObject.publish(event); the delivery thread of `kind` runs the real thread_runner; the object's own
   thread runs run_event.  The object's queue is a LockingDeque (token queue + deque with a ghost reference for the intended order)."""
@@ -925,7 +925,8 @@ def ao_pubsub(kind="lifo", pending=1, subscribe_first=True):
   NEWS = sc.strings.code("NEWS")
   news = EV.new(signal=SK(11, 11), signal_name=SK(NEWS, "NEWS"))
   sub_ev = EV.new(signal=SK(11, 11), signal_name=SK(NEWS, "NEWS"))
-  pend = [EV.new(signal=SK(12 + i, 12 + i), signal_name=SK(sc.strings.code("P%d" % i), "P%d" % i)) for i in range(pending)]
+  # the last `post_after` of these are posted by the caller after its publish: they race with the delivery of the publication
+  pend = [EV.new(signal=SK(12 + i, 12 + i), signal_name=SK(sc.strings.code("P%d" % i), "P%d" % i)) for i in range(pending + post_after)]
   kinds = {news.rid: "in.kind.news"}
   sc.ghost["in.kind.news"] = 1 if kind == "lifo" else 0
   for e in pend:
@@ -973,7 +974,7 @@ def ao_pubsub(kind="lifo", pending=1, subscribe_first=True):
     comp.ghost(fn, "dispatch", uses=[x])
     return SK(NONE, None)
   sc.method_intrinsics[("HsmWithQueues", "dispatch")] = lambda comp, self_val, args, kwargs: ghost_dispatch(comp, [kwargs.get("e", args[0] if args else None)], {})
-  body = "def caller(ao, sub_ev, news, %s):\n" % ", ".join("p%d" % i for i in range(pending)) if pending else "def caller(ao, sub_ev, news):\n"
+  body = "def caller(ao, sub_ev, news, %s):\n" % ", ".join("p%d" % i for i in range(len(pend))) if pend else "def caller(ao, sub_ev, news):\n"
   if subscribe_first:
     body += "  ao.subscribe(sub_ev, queue_type=%r)\n" % kind
   for i in range(pending):
@@ -981,6 +982,8 @@ def ao_pubsub(kind="lifo", pending=1, subscribe_first=True):
   if not subscribe_first:
     body += "  ao.subscribe(sub_ev, queue_type=%r)\n" % kind
   body += "  ao.publish(news, priority=5)\n"
+  for i in range(pending, pending + post_after):
+    body += "  ao.post_fifo(p%d)\n" % i
   c = Compiler(sc, 0, "caller")
   c.call_function(SF(node=driver(body, "caller"), closure={}, qualname="scenario.caller", globs={}), [SP(obj), sub_ev, news] + pend, {})
   sc.programs.append(c.finish())
@@ -991,7 +994,7 @@ def ao_pubsub(kind="lifo", pending=1, subscribe_first=True):
   fn = ao.ActiveFabricSource.thread_runner_fifo if kind == "fifo" else ao.ActiveFabricSource.thread_runner_lifo
   c.call_function(SF(fn=fn, self_val=SP(fabric), defcls=ao.ActiveFabricSource), [SO(fabric_event), SO(pq), SO(subs)], {})
   sc.programs.append(c.finish())
-  sc.info = {"kind": kind, "pending": pending, "events": [e.rid for e in all_events], "news": news.rid, "posters": [0], "consumer": 1,
+  sc.info = {"kind": kind, "pending": pending, "post_after": post_after, "events": [e.rid for e in all_events], "news": news.rid, "posters": [0], "consumer": 1,
              "subscribe_first": subscribe_first, "handler_post_event": None}
   return sc
 
@@ -1008,21 +1011,37 @@ class RecordingQueue:
 def bind_class_state(sc, cls, skip=()):
   """class attributes that are state shared by every thread: an itertools.count becomes a counter model, an int / None a shared cell, a lock
   a lock model.  Found by looking at the real class, so a class that keeps its counter differently is modelled as it is written."""
+  import ast
+  import inspect
   import itertools
+  import textwrap
   import threading
   out = {}
+  # initial values come from the class statement in the source (the live class of this process may have been used already)
+  initial = {}
+  tree = ast.parse(textwrap.dedent(inspect.getsource(cls)))
+  for st in tree.body[0].body:
+    if isinstance(st, ast.Assign) and len(st.targets) == 1 and isinstance(st.targets[0], ast.Name):
+      try:
+        initial[st.targets[0].id] = ast.literal_eval(st.value)
+      except (ValueError, SyntaxError):
+        pass
   for k, v in vars(cls).items():
     if k.startswith("__") or k in skip or callable(v) or isinstance(v, (staticmethod, classmethod, property)):
       continue
     name = "%s.%s" % (cls.__name__, k)
     if isinstance(v, itertools.count):
       m = sc.add(M.MCounter(name, 0))
+      m.initial_py = 0
     elif isinstance(v, bool) or v is None or isinstance(v, int):
-      if isinstance(v, int) and not 0 <= v < 8:
+      v0 = initial.get(k, v)
+      if isinstance(v0, int) and not 0 <= v0 < 8:
         continue              # a constant (priorities, sizes): left to the translator as a static value
-      m = sc.add(M.MAttr(name, NONE if v is None else int(v)))
+      m = sc.add(M.MAttr(name, NONE if v0 is None else int(v0)))
+      m.initial_py = v0
     elif isinstance(v, (type(threading.RLock()), type(threading.Lock()))):
       m = sc.add(M.MRLock(name))
+      m.initial_py = None
     else:
       continue
     sc.class_attrs[(cls, k)] = m
@@ -1093,5 +1112,6 @@ def publishers(counts=(2, 2)):
     c = Compiler(sc, t, "publisher%d" % t)
     c.call_function(SF(node=driver(body, "publisher"), closure=clo, qualname="scenario.publisher", globs={}), [SP(fabric), ev], {})
     sc.programs.append(c.finish())
-  sc.info = {"counts": list(counts), "calls": [list(c) for c in calls], "class_state": {k: m.cls for k, m in state.items()}}
+  sc.info = {"counts": list(counts), "calls": [list(c) for c in calls], "class_state": {k: m.cls for k, m in state.items()},
+             "class_state_initial": {k: m.initial_py for k, m in state.items()}}
   return sc
